@@ -41,9 +41,9 @@ CHECKS = {
  "C10": ("Coq proof of run_sim / C10_partial_concrete (heap-with-lazy-views machine refines value semantics on safe histories, concrete selector grammar, sound boolean guard) + C10_refuted witness + correspondence on history pairs",
          "The full statement is false of the faithful model (C10_refuted, reproduced on the real code: known finding K1); C10_partial_concrete proves it for histories in which no "
          "write hits a buffer another array still names. History pairs with/without an inserted read (20 read kinds that return their own results) are run on the implementation and on the model.", "4.10, 10.3", ""),
- "C11": ("Coq proof table_is_dictionary (refinement of the bucket table to an association list over every history) + hash kernel tie + correspondence on histories (oracle and dict-model families)",
+ "C11": ("Coq proof table_is_dictionary (refinement of the bucket table to an association list over every history), tbl_eq_correct (== decides dictionary equality) + hash kernel tie + correspondence on histories (oracle and dict-model families)",
          "Invariant established by the constructor for every duplicate-free key set and modulus, preserved by assignment; lookups equal the dictionary's; absent keys refused. "
-         "Correspondence only: key dtypes other than int64, float values, like-functions, +, ==, items/to_dict, HashSet.", "4.11, 10.3", ""),
+         "Equality of two tables (any moduli, any bucket order) equals equality of their dictionaries. Correspondence only: key dtypes other than int64, float values, like-functions, +, items/to_dict, HashSet.", "4.11, 10.3", ""),
  "C12": ("Coq proof count_correct / count_history / split-and-order invariance, fast_indices_correct + correspondence on batch histories",
          "After any sequence of batches every key reports initial + occurrences in the concatenation; non-keys contribute nothing; the fast index builder equals the general one.", "4.12, 10.3", ""),
  "C13": ("Coq proof unpack_pack, get_correct, getlist_correct, sliding_window_correct over Z with explicit mod 2^64 + nine bitarray.py kernels re-translated from the source and tied + correspondence",
